@@ -161,6 +161,8 @@ def obligations(ctx, tier):
             reps_ab = [(n, env_of(p0=c03.val(A, a), p1=c03.val(A, b))) for n, a, b in c03.pairs(A)]
             for kind in ("div_floor", "mod_floor", "div_rem", "is_multiple_of"):
                 out += core.g_row(K, PROP, tr(A, I_, [], kind), [(n, e, integer_expect(kind)) for n, e in reps_ab])
+            # `divides` is the deprecated alias of is_multiple_of (same operand order)
+            out += core.g_row(K, PROP, tr(A, I_, [], "divides"), [(n, e, integer_expect("is_multiple_of")) for n, e in reps_ab])
             out += core.g_row(K, PROP, tr(A, I_, [], "is_even"), arith.reps(A, "T", lambda W, env: ("val", env[0].v % 2 == 0)))
             out += core.g_row(K, PROP, tr(A, I_, [], "is_odd"), arith.reps(A, "T", lambda W, env: ("val", env[0].v % 2 == 1)))
             # ---- lcm: representable whenever the lcm itself is (the product a*b need not be)
